@@ -104,7 +104,8 @@ CLAIMS = {
     note="Proved: the theorems above, about Model/Anf.lean and Sem. Caveat in the theorems: a source run that goes wrong (Fail.stuck = ill-typed IR) "
          "is only required to be matched by some outcome (ANF names all operands before the operation, so it notices an ill-typed operand later); "
          "well-typedness of the IR is C03's. Validated only: that the model equals anf.rs (exact tie on every real function, every run); the statement "
-         "lowering of go/compile.rs (compile_aexpr*, compile_while, compile_go) and go/dce.rs - covered by the stage-wise oracle on the Go stage, "
+         "lowering of go/compile.rs outside InGoFragment (inside it: Model/GoCompile.lean tied exactly by `gv gocomp`, Props/GoCompile.lean "
+         "compile_preserves / compile_order, see DESIGN 'Go back end (compile.rs) - as built') and go/dce.rs - covered by the stage-wise oracle on the Go stage, "
          "dce.rs is modelled and proved by worker dce; real goroutine interleavings (the semantics offers two schedules: run the activation at "
          "the spawn / never before the spawner ends). Two small refinements of Sem.lean were needed and agreed: a tag evaluates to the enum value "
          "of its type, and && / || with a non-boolean left operand get stuck before the right operand is evaluated. Found and fixed: dead-code "
@@ -345,6 +346,8 @@ CLAIMS = {
          "run in written order, environments are only passed down, lookup = the C05 resolver model's lookup.",
     design_ref="§5 C01",
     note="Trusted: Sem/Go.Sem as definitions (Go.Sem reproduces all recorded corpus outputs), harness IR serialisers, the generator's coverage. "
+         "The Go back end has its own model (Model/GoCompile.lean, exact tie `gv gocomp` on every run) and, for the stage-(a) fragment, a proved "
+         "forward simulation Sem -> Go.Sem (Props/GoCompile.lean compile_preserves / compile_preserves_run); outside the fragment it stays validated here. "
          "Not covered: go_pprint.rs (AST is dumped before printing), real goroutine interleavings, Go's float formatting. "
          "SrcSem starts at ast::File: CST->AST lowering itself (operator association, literal decoding) is C11/C12's; SrcSem is validated "
          "like Go.Sem, by reproducing every recorded corpus output it can decide.",
@@ -357,6 +360,7 @@ CLAIMS = {
          "legality for all strings. Known findings: closures in func-typed positions, missing() at a non-unit type.",
     design_ref="§5 C02",
     note="Trusted: Go.Check as our reading of the Go spec (accepts the 73 corpus programs real Go accepted, rejects 058 as real Go did); "
+         "scope rules of the back end's output are proved for InGoFragment functions (Props/GoCompile.lean compile_wellformed + Props/Dce.lean), typing is validated only; "
          "goast dump; go_pprint.rs not covered.",
     technique="translation validation with a Lean-defined Go type/scope checker on the real Go AST"),
  "C14": dict(
